@@ -491,6 +491,47 @@ Theorem xfr_run_all_signed : forall z rdt ser udp ws,
 Proof. exact XfrTsig.xfr_run_all_signed. Qed.
 Print Assumptions xfr_run_all_signed.
 
+(* ---- decision tables ---- *)
+
+(* dns.query.inbound_xfr: which transport is used and what is reported, for every query type, UDP mode,
+   keyring flag and server behaviour (tcp_outcome = the TCP attempt) *)
+Theorem inbound_xfr_decision_table : forall kr z qt s mode tbu tbt,
+  ((qt <> tIXFR \/ mode = 0) -> xfr_core kr z qt s mode tbu tbt = XfrRefresh.tcp_outcome kr z qt s tbt) /\
+  (qt = tIXFR -> mode <> 0 ->
+     let u := fst (xfr_run kr z qt s true (pick tbu s)) in
+     (forall z', u = Done z' -> xfr_core kr z qt s mode tbu tbt = Ok (0, z')) /\
+     (forall e z', u = Error e z' -> e <> eUseTCP -> xfr_core kr z qt s mode tbu tbt = Ok (e, z')) /\
+     (forall z', u = Error eUseTCP z' -> mode = 2 -> xfr_core kr z qt s mode tbu tbt = Ok (eUseTCP, z')) /\
+     (forall z', u = Error eUseTCP z' -> mode <> 2 -> xfr_core kr z qt s mode tbu tbt = XfrRefresh.tcp_outcome kr z qt s tbt)).
+Proof. exact XfrRefresh.inbound_xfr_decision_table. Qed.
+Print Assumptions inbound_xfr_decision_table.
+
+Theorem xfr_core_error_leaves_zone : forall kr z qt s mode tbu tbt c z',
+  xfr_core kr z qt s mode tbu tbt = Ok (c, z') -> c <> 0 -> z' = z.
+Proof. exact XfrRefresh.xfr_core_error_leaves_zone. Qed.
+Print Assumptions xfr_core_error_leaves_zone.
+
+(* dns.xfr.make_query (serial argument None / 0 / n, zone with or without SOA) and
+   extract_serial_from_query: the serial read back is the one make_query returned *)
+Theorem query_serial_table : forall zs ser,
+  match make_query zs ser with
+  | Ok (qt, s) =>
+      extract_serial (qt, s) = Ok s /\
+      match ser with
+      | None => qt = tAXFR /\ s = None
+      | Some n =>
+          if n =? 0 then match zs with
+                         | Some z0 => qt = tIXFR /\ s = Some z0
+                         | None => qt = tAXFR /\ s = None
+                         end
+          else qt = tIXFR /\ s = Some n /\ 0 < n < two32
+      end
+  | Internal _ => exists n, ser = Some n /\ n <> 0 /\ ~ (0 < n < two32)
+  | Lib _ => False
+  end.
+Proof. exact XfrRefresh.query_serial_table. Qed.
+Print Assumptions query_serial_table.
+
 (* non-vacuity: concrete instances of the hypotheses *)
 Example ex_backwards :
   let w := mkW 0 [(0, tIXFR)] [mkRR 0 1 6 0 3600 5; mkRR 1 1 1 0 300 7] in
